@@ -303,6 +303,96 @@ theorem goroutine_facts_needed :
     (∃ s, goneAtKillReturn { goodParams with killWaitsForGoroutines := false } s = false ∧ s.inClientWaitGroup = true) := by
   refine ⟨by decide, by decide, by decide, by decide, ⟨.startWait, by decide⟩⟩
 
+/-! ### Whatever the plugin's state when `Kill` is called -/
+
+private theorem atKill_goodFiles (P : Params) (k : AtKill) (hG : P.GoodFiles) (hK : P.GoodKill) :
+    (P.atKill k).GoodFiles := by
+  cases k with
+  | running => exact hG
+  | exited =>
+    obtain ⟨h1, h2, h3, h4, h5, h6, h7, h8, h9, h10, h11, h12, h13, h14⟩ := hG
+    unfold Params.GoodKill at hK
+    simp [Params.atKill, Params.GoodFiles, cleanupRuns, h2, h3, h4, h5, h6, h7, h8, h9, h10, h11, h12, h13, h14, hK]
+
+private theorem atKill_goodGoroutines (P : Params) (k : AtKill) (hG : P.GoodGoroutines) (hK : P.GoodKill) :
+    (P.atKill k).GoodGoroutines := by
+  cases k with
+  | running => exact hG
+  | exited =>
+    obtain ⟨h1, h2, h3, h4, h5, h6⟩ := hG
+    unfold Params.GoodKill at hK
+    simp [Params.atKill, Params.GoodGoroutines, cleanupRuns, h2, h3, h4, h5, h6, hK]
+
+/-- **After `Kill`, no socket file or temp directory remains — whatever the plugin's state at the
+time of `Kill`**, including "already shut down by the host through `ClientProtocol.Close()` and
+exited": for every history, configuration and state `k`, with the edges of `GoodFiles` and the fact
+that `Kill`'s clean-up runs whenever a runner was recorded (`GoodKill`).  `ledger_empty_files` is
+the instance `k = running` (`atKill_running`). -/
+theorem ledger_empty_files_any_state (P : Params) (L : Lib) (c : Cfg) (h : List Op) (k : AtKill)
+    (hG : P.GoodFiles) (hK : P.GoodKill) : leftFilesK P L c h k = [] :=
+  ledger_empty_files (P.atKill k) L c h (atKill_goodFiles P k hG hK)
+
+/-- … in particular the runner's socket directory is not among the leftovers. -/
+theorem no_socket_dir_after_kill (P : Params) (L : Lib) (c : Cfg) (h : List Op) (k : AtKill)
+    (hG : P.GoodFiles) (hK : P.GoodKill) : ∀ st, ⟨.file .socketDir, st⟩ ∉ leftFilesK P L c h k := by
+  intro st hm
+  rw [ledger_empty_files_any_state P L c h k hG hK] at hm
+  cases hm
+
+/-- **No host goroutine remains, whatever the plugin's state at the time of `Kill`.** -/
+theorem ledger_empty_goroutines_any_state (P : Params) (L : Lib) (c : Cfg) (h : List Op) (k : AtKill)
+    (hG : P.GoodGoroutines) (hK : P.GoodKill) : leftGoroutinesK P L c h k = [] :=
+  ledger_empty_goroutines (P.atKill k) L c h (atKill_goodGoroutines P k hG hK)
+
+/-- `Kill` returns only after the goroutines `Start` launched are gone, in every state. -/
+theorem start_goroutines_gone_at_kill_return_any_state (P : Params) (k : AtKill)
+    (hW : P.killWaitsForGoroutines = true) (hK : P.GoodKill) (s : Site)
+    (hs : s ∈ [Site.startLogStderr, .startWait, .startScan, .startDrain]) : goneAtKillReturn (P.atKill k) s = true := by
+  apply start_goroutines_gone_at_kill_return _ _ s hs
+  unfold Params.GoodKill at hK
+  cases k <;> simp [Params.atKill, cleanupRuns, hW, hK]
+
+/-- The ordinary histories are the state `running`: the theorems above specialise to the earlier ones. -/
+theorem atKill_running (P : Params) : P.atKill .running = P := rfl
+
+example : goodParams.GoodKill := by decide
+/-- non-vacuity: the state `exited` is a different evaluation of the graph when the fact is false … -/
+example : ({ goodParams with killCleanupWheneverRunner := false }).atKill .exited ≠
+    { goodParams with killCleanupWheneverRunner := false } := by decide
+/-- … and the session the theorem speaks about does have a socket directory entry. -/
+example : (⟨.file .socketDir, .released⟩ : Entry) ∈
+    entries (goodParams.atKill .exited) ⟨true⟩ ⟨.grpc, false, false, .runner⟩ [.dispense, .callback] := by decide
+
+/-- **Witness: the fact is needed.**  `Kill` with an early return above its `defer` that fires when
+the plugin has already exited (every other edge in place): the runner's socket directory remains
+after `Kill` — RunnerFunc launch, any protocol / multiplexing / TLS, the host closed the protocol
+client and the plugin exited before `Kill`; here with the empty history, and nothing else remains. -/
+theorem exited_before_kill_socket_dir_remains (L : Lib) (proto : Proto) (mux tls : Bool) :
+    leftFilesK { goodParams with killCleanupWheneverRunner := false } L ⟨proto, mux, tls, .runner⟩ [] .exited =
+      [⟨.file .socketDir, .remains⟩] := by
+  cases L with | mk g => cases g <;> cases proto <;> cases mux <;> cases tls <;> decide
+
+/-- … and it remains after every history. -/
+theorem exited_before_kill_socket_dir_remains_always (L : Lib) (proto : Proto) (mux tls : Bool) (h : List Op) :
+    ⟨.file .socketDir, .remains⟩ ∈
+      leftFilesK { goodParams with killCleanupWheneverRunner := false } L ⟨proto, mux, tls, .runner⟩ h .exited := by
+  have h0 := exited_before_kill_socket_dir_remains L proto mux tls
+  simp only [leftFilesK, leftFiles, ledgerAfter, entries, historyEntries, List.append_nil] at h0 ⊢
+  rw [List.filter_append, List.filter_append, h0]
+  simp
+
+/-- The same tree on the ordinary history (plugin running at `Kill`): nothing remains — which is why
+no `Start … use … Kill` session can show the defect. -/
+theorem exited_before_kill_needs_the_state (L : Lib) (c : Cfg) (h : List Op) :
+    leftFilesK { goodParams with killCleanupWheneverRunner := false } L c h .running = [] :=
+  ledger_empty_files _ L c h (by decide)
+
+/-- Goroutine half of the witness: `Kill` no longer waits for the goroutines `Start` launched. -/
+theorem exited_before_kill_not_waited :
+    ∃ s, s.inClientWaitGroup = true ∧
+      goneAtKillReturn (({ goodParams with killCleanupWheneverRunner := false }).atKill .exited) s = false :=
+  ⟨.startWait, by decide, by decide⟩
+
 /-- A `go` statement the model does not know (site number 0), or a known one that disappeared,
 breaks `GoodGoroutines`: the goroutine theorem then says nothing about the tree. -/
 theorem unknown_site_breaks_good :
